@@ -382,14 +382,14 @@ class C13:
         self._setup()
         rng = random.Random(f"{sh['seed']}/C13/{sh['index']}")
         if sh["kind"] == "sqlite":
-            for i in range(sh["n"]):
+            for i in harness.budgeted(range(sh["n"]), rec):
                 case = {"kind": "sqlite", "op": ["append", "delete", "erasedups", "gc"][i % 4], "rseed": f"{sh['seed']}/C13/sq/{sh['index']}/{i}", "rows": rng.choice([5, 30]), "maxpoints": 6 if sh["tier"] == "quick" else 40}
                 if i < 1:
                     rec.sample(case, "sqlite")
                 self.run_case(case, rec)
             return
         ops = ["flush-at-exit", "flush-background", "delete", "erasedups", "unlock", "gc-remove"]
-        for i in range(sh["n"]):
+        for i in harness.budgeted(range(sh["n"]), rec):
             op = ops[(sh["index"] + i) % len(ops)]
             case = {"kind": "json", "op": op, "rseed": f"{sh['seed']}/C13/{sh['index']}/{i}"}
             if i < 1:
